@@ -27,16 +27,16 @@ func regoStringContent(s string) string {
 	return q[1 : len(q)-1]
 }
 
-// regoStringList renders a list of profile values as the elements of a Rego set literal
-func regoStringList(values []string) string {
+// regoStringSet renders a list of profile values as a Rego set literal; an empty list is the empty set
+func regoStringSet(values []string) string {
 	if len(values) == 0 {
-		return "\"\"" // "{ }" would be an empty object, not a set
+		return "set()" // "{ }" would be an empty object, and { "" } the set that holds the empty string
 	}
 	quoted := make([]string, len(values))
 	for i, v := range values {
 		quoted[i] = regoString(v)
 	}
-	return strings.Join(quoted, ",")
+	return "{ " + strings.Join(quoted, ",") + "}"
 }
 
 // expectedValuesLiteral renders the list shown as "expected" in traces (["a","b"]) as a Rego string literal
